@@ -219,6 +219,10 @@ class FakeCursor(object):
         rec = {'sql': sql, 'args': args, 'sent': None, 'rows': None, 'error': None}
         pool.statements.append(rec)
         try:
+            try:
+                sqlemu.tokenize(sql, sqlemu.PERSONALITIES[pool.personality], raw=True)      # pony's own text must lex
+            except sqlemu.SqlSyntaxError as e:
+                raise sqlemu.SqlSyntaxError('LEX: %s' % e)
             if pool.dialect in ('postgres', 'mysql', 'cockroach'):
                 sent = sqlemu.client_format(sql, args, pool.dialect)
                 rec['sent'] = sent
